@@ -28,10 +28,10 @@ class Ctx:
             self.wire = core.build_wire(self.sc)
         return self.wire
 
-    def export(self, expr, name=None, extends='WireFamilies', pre_sample=None):
+    def export(self, expr, name=None, extends='WireFamilies', pre_sample=None, caseop='Case'):
         self.nbatch += 1
         cases, total = core.export_cases(self.sc, name or ('Exp%d' % self.nbatch), expr, extends=extends,
-                                         pre_sample=pre_sample, seed=self.seed)
+                                         pre_sample=pre_sample, seed=self.seed, caseop=caseop)
         self.res.cov.setdefault('family_sizes', {})[expr] = total
         return cases
 
